@@ -414,6 +414,43 @@ def _table_keys(a, fn, node: ast.expr, depth=0) -> set[str] | None:
     return None
 
 
+def _table_items(a, fn, node: ast.expr, depth=0):
+    """(character, replacement) pairs of a dict escape table (same resolution as _table_keys)"""
+    if isinstance(node, ast.Dict):
+        out = []
+        for k, v in zip(node.keys, node.values):
+            try:
+                kk, vv = ast.literal_eval(k), ast.literal_eval(v)
+            except Exception:  # noqa: BLE001
+                return None
+            out.append((chr(kk) if isinstance(kk, int) else kk, vv))
+        return out
+    if isinstance(node, ast.Call) and dotted(node.func).endswith('maketrans') and node.args:
+        return _table_items(a, fn, node.args[0], depth + 1)
+    if isinstance(node, ast.Name) and depth < 3:
+        for n in walk_no_defs(fn.node):
+            if isinstance(n, (ast.Assign, ast.AnnAssign)):
+                tg = n.targets[0] if isinstance(n, ast.Assign) else n.target
+                if isinstance(tg, ast.Name) and tg.id == node.id and n.value is not None:
+                    return _table_items(a, fn, n.value, depth + 1)
+        q = a.p.resolve(fn.module.name, node.id)
+        m, _, nm = q.rpartition('.')
+        mod = a.p.modules.get(m)
+        if mod and nm in mod.assigns:
+            return _table_items(a, fn, mod.assigns[nm], depth + 1)
+    return None
+
+
+def _regex_means_literal(escape: str, ch: str, follower: str) -> bool:
+    """the escape, followed by FOLLOWER, is read by the regex parser as the literal CH followed by the literal FOLLOWER"""
+    import re._parser as rp
+    try:
+        items = list(rp.parse(escape + follower))
+    except Exception:  # noqa: BLE001
+        return False
+    return [(str(op), av) for op, av in items] == [('LITERAL', ord(ch)), ('LITERAL', ord(follower))]
+
+
 def r4_emission(a, tier):
     rep = RuleReport(
         'C02.R4',
@@ -450,6 +487,20 @@ def r4_emission(a, tier):
                     tables.append(ks)
     if not tables:
         raise AnalysisError('regexpp: cannot find its escape table (dict .get / str.translate)')
+    # (a2) every replacement MEANS the character it replaces, as a regex, whatever follows it: the pattern of the generated parser is
+    #      the pattern of the model (`\\b` is a word boundary, not a backspace; `\\0` followed by a digit is an octal escape)
+    for n in walk_no_defs(rp.node):
+        for src in ([n.func.value] if isinstance(n, ast.Call) and isinstance(n.func, ast.Attribute) and n.func.attr == 'get' else
+                    [n.args[0]] if isinstance(n, ast.Call) and isinstance(n.func, ast.Attribute) and n.func.attr == 'translate' and n.args else []):
+            items = _table_items(a, rp, src)
+            for ch, repl in items or []:
+                if not isinstance(repl, str) or not isinstance(ch, str) or len(ch) != 1:
+                    continue
+                bad = [f for f in ('a', '1', '7') if not _regex_means_literal(repl, ch, f)]
+                rep.add({'regexpp_replaces': repr(ch), 'by': repl, 'same_regex_meaning': not bad})
+                if bad:
+                    rep.fail(rp.qualname, f'escape-meaning:{ch!r}', f'regexpp writes the character {ch!r} as `{repl}`, which the regex parser does not read as that '
+                             f'character when it is followed by {bad[0]!r}: the pattern in the generated parser differs from the pattern of the model', rp.loc)
     covered = set().union(*tables)
     missing = sorted(hazard - covered)
     rep.add({'regexpp_escapes': sorted(map(repr, covered)), 'missing': [repr(m) for m in missing]})
